@@ -1,8 +1,10 @@
 (* Proofs.WriteOptionsProofs — writer.write (Model/Writer.v) factors into a header part that
-   sees only the options `version` and `wrap` (and, for the title lines alone, header_width)
-   and a data part that sees the remaining options.  Consequences (C12): the header item
-   lines and the resulting in-memory file do not depend on fmt, column_fmt,
-   len_numeric_field, lhs_spacer, spacer, data_width, data_section_header, mnemonics_header.
+   sees only the options `version`, `wrap` and the numeric format of the index column
+   (col_fmt o 0, with which STRT/STOP/STEP are printed; and, for the title lines alone,
+   header_width) and a data part that sees the remaining options.  Consequences (C12): the
+   header item lines and the resulting in-memory file do not depend on the formats of the
+   other columns, len_numeric_field, lhs_spacer, spacer, data_width, data_section_header,
+   mnemonics_header.
    All statements hold for every oracle. *)
 From Coq Require Import List Arith NArith ZArith Bool String.
 Import ListNotations.
@@ -13,7 +15,7 @@ Open Scope N_scope.
 
 Section WithOracles.
 Variable fmtv : list N -> list N -> list N.
-Variable fmt_diff : list N -> list N -> list N.
+Variable fmt_diff : list N -> list N -> list N -> list N.
 Variable fmt_pi : list N -> list N.
 Variable fstr : list N -> list N.
 Variable fzero : list N -> bool.
@@ -31,8 +33,9 @@ Record hdr_sections := mkhs {
   hs_lp : list (list N);
   hs_las : las }.
 
-(* steps 1-9 of write, as a function of the two options `version` and `wrap` only *)
-Definition write_sections (ver : option wver) (wrapo : option bool) (m : mlas) : option hdr_sections :=
+(* steps 1-9 of write, as a function of the options `version` and `wrap` and of the numeric format
+   of the index column (col_fmt o 0: STRT/STOP/STEP are printed with it) only *)
+Definition write_sections (ver : option wver) (wrapo : option bool) (ifmt : list N) (m : mlas) : option hdr_sections :=
   let l0 := m_las m in
   let trv := s_transforms (l_version l0) in
   let wrap_step : option (bool * las) :=
@@ -62,7 +65,7 @@ Definition write_sections (ver : option wver) (wrapo : option bool) (m : mlas) :
     else if las_version_eqb v V20 then
       set_item trv (s2l "VERS") (new_item (s2l "VERS") [] (VFloat (s2l "2.0")) (s2l "CWLS log ASCII Standard -VERSION 2.0")) (s_items (l_version l1))
     else s_items (l_version l1) in
-  match refresh_sss fmtv fmt_diff numeq (mkmlas l1 (m_index_initial m)) with
+  match refresh_sss fmtv fmt_diff numeq ifmt (mkmlas l1 (m_index_initial m)) with
   | None => None
   | Some l2 =>
   let l3 := with_params (with_well l2 (map_section (fun it => set_value it (standardize fzero (i_value it) (i_unit it))) (l_well l2)))
@@ -124,7 +127,7 @@ Definition write_data (o : wopts) (hs : hdr_sections) : option (list N) :=
 (* write = header part (version, wrap) ; title lines (header_width) ; data part (everything) *)
 Theorem write_factors (o : wopts) (m : mlas) :
   write fmtv fmt_diff fmt_pi fstr fzero numeq o m =
-  match write_sections (wo_version o) (wo_wrap o) m with
+  match write_sections (wo_version o) (wo_wrap o) (col_fmt o 0%nat) m with
   | None => WErr WKeyError
   | Some hs =>
       match write_data o hs with
@@ -140,7 +143,7 @@ Proof.
     cbv zeta;
     (match goal with |- context [match ?x with Some v => _ | None => WErr WKeyError end] =>
        destruct x as [v|]; [|reflexivity] end);
-    (match goal with |- context [refresh_sss ?a ?b ?c ?d] => destruct (refresh_sss a b c d) as [l2|]; [|reflexivity] end);
+    (match goal with |- context [refresh_sss ?a ?b ?c ?d ?e] => destruct (refresh_sss a b c d e) as [l2|]; [|reflexivity] end);
     repeat (match goal with |- context [section_lines ?a ?b ?c ?d] =>
               destruct (section_lines a b c d) as [?|]; [|reflexivity] end).
   all: unfold write_data, header_lines; cbn [hs_wrap hs_version hs_lv hs_lw hs_lc hs_lp hs_las]; cbv zeta.
@@ -150,19 +153,19 @@ Qed.
 
 Lemma write_ok_inv o m t m' :
   write fmtv fmt_diff fmt_pi fstr fzero numeq o m = WOk t m' ->
-  exists hs d, write_sections (wo_version o) (wo_wrap o) m = Some hs /\ write_data o hs = Some d /\
+  exists hs d, write_sections (wo_version o) (wo_wrap o) (col_fmt o 0%nat) m = Some hs /\ write_data o hs = Some d /\
     t = join [ch_nl] (header_lines (wo_header_width o) hs) ++ [ch_nl] ++ d /\
     m' = mkmlas (hs_las hs) (m_index_initial m).
 Proof.
-  rewrite write_factors. destruct (write_sections (wo_version o) (wo_wrap o) m) as [hs|] eqn:Hs; [|discriminate].
+  rewrite write_factors. destruct (write_sections (wo_version o) (wo_wrap o) (col_fmt o 0%nat) m) as [hs|] eqn:Hs; [|discriminate].
   destruct (write_data o hs) as [d|] eqn:Hd; [|discriminate]. intros [= <- <-].
   exists hs, d. repeat split. exact Hd.
 Qed.
 
 (* the item lines in the text are section_lines of the sections of the in-memory file after the
    call (for ~Version: of the copy in which VERS was substituted) *)
-Lemma write_sections_lines ver wrapo m hs :
-  write_sections ver wrapo m = Some hs ->
+Lemma write_sections_lines ver wrapo ifmt m hs :
+  write_sections ver wrapo ifmt m = Some hs ->
   section_lines fstr (hs_version hs) (s2l "Version") (hs_vers_items hs) = Some (hs_lv hs) /\
   section_lines fstr (hs_version hs) (s2l "Well") (s_items (l_well (hs_las hs))) = Some (hs_lw hs) /\
   section_lines fstr (hs_version hs) (s2l "Curves") (s_items (l_curves (hs_las hs))) = Some (hs_lc hs) /\
@@ -174,49 +177,50 @@ Proof.
     cbv zeta;
     (match goal with |- context [match ?x with Some v => _ | None => None end] =>
        destruct x as [v|]; [|discriminate] end);
-    (match goal with |- context [refresh_sss ?a ?b ?c ?d] => destruct (refresh_sss a b c d) as [l2|]; [|discriminate] end);
+    (match goal with |- context [refresh_sss ?a ?b ?c ?d ?e] => destruct (refresh_sss a b c d e) as [l2|]; [|discriminate] end);
     repeat (match goal with |- context [match section_lines ?a ?b ?c ?d with _ => _ end] =>
               destruct (section_lines a b c d) as [?|] eqn:?; [|discriminate] end).
   all: intros H; inversion H; subst; cbn [hs_version hs_vers_items hs_lv hs_lw hs_lc hs_lp hs_las]; repeat split; assumption.
 Qed.
 
-(* C12.3 two calls that agree on `version` and `wrap`: same section item lines (the texts differ
+(* C12.3 two calls that agree on `version`, `wrap` and the index column's numeric format: same section item lines (the texts differ
    in the title lines — header_width — and in the data part only), same in-memory result *)
 Theorem header_independent_of_data_options o1 o2 m t1 m1 t2 m2 :
-  wo_version o1 = wo_version o2 -> wo_wrap o1 = wo_wrap o2 ->
+  wo_version o1 = wo_version o2 -> wo_wrap o1 = wo_wrap o2 -> col_fmt o1 0%nat = col_fmt o2 0%nat ->
   write fmtv fmt_diff fmt_pi fstr fzero numeq o1 m = WOk t1 m1 ->
   write fmtv fmt_diff fmt_pi fstr fzero numeq o2 m = WOk t2 m2 ->
   exists hs d1 d2,
-    write_sections (wo_version o1) (wo_wrap o1) m = Some hs /\
+    write_sections (wo_version o1) (wo_wrap o1) (col_fmt o1 0%nat) m = Some hs /\
     t1 = join [ch_nl] (header_lines (wo_header_width o1) hs) ++ [ch_nl] ++ d1 /\
     t2 = join [ch_nl] (header_lines (wo_header_width o2) hs) ++ [ch_nl] ++ d2.
 Proof.
-  intros Hv Hw H1 H2. apply write_ok_inv in H1 as (hs1 & d1 & Hs1 & _ & Ht1 & _).
+  intros Hv Hw Hf H1 H2. apply write_ok_inv in H1 as (hs1 & d1 & Hs1 & _ & Ht1 & _).
   apply write_ok_inv in H2 as (hs2 & d2 & Hs2 & _ & Ht2 & _).
-  rewrite <- Hv, <- Hw, Hs1 in Hs2. inversion Hs2; subst hs2.
+  rewrite <- Hv, <- Hw, <- Hf, Hs1 in Hs2. inversion Hs2; subst hs2.
   exists hs1, d1, d2. repeat split; assumption.
 Qed.
 
 Theorem state_independent_of_presentation o1 o2 m t1 m1 t2 m2 :
-  wo_version o1 = wo_version o2 -> wo_wrap o1 = wo_wrap o2 ->
+  wo_version o1 = wo_version o2 -> wo_wrap o1 = wo_wrap o2 -> col_fmt o1 0%nat = col_fmt o2 0%nat ->
   write fmtv fmt_diff fmt_pi fstr fzero numeq o1 m = WOk t1 m1 ->
   write fmtv fmt_diff fmt_pi fstr fzero numeq o2 m = WOk t2 m2 ->
   m1 = m2.
 Proof.
-  intros Hv Hw H1 H2. apply write_ok_inv in H1 as (hs1 & d1 & Hs1 & _ & _ & Hm1).
+  intros Hv Hw Hf H1 H2. apply write_ok_inv in H1 as (hs1 & d1 & Hs1 & _ & _ & Hm1).
   apply write_ok_inv in H2 as (hs2 & d2 & Hs2 & _ & _ & Hm2).
-  rewrite <- Hv, <- Hw, Hs1 in Hs2. inversion Hs2; subst hs2. rewrite Hm1, Hm2. reflexivity.
+  rewrite <- Hv, <- Hw, <- Hf, Hs1 in Hs2. inversion Hs2; subst hs2. rewrite Hm1, Hm2. reflexivity.
 Qed.
 
 (* with equal header_width the header text itself is identical *)
 Corollary header_text_independent o1 o2 m t1 m1 t2 m2 :
-  wo_version o1 = wo_version o2 -> wo_wrap o1 = wo_wrap o2 -> wo_header_width o1 = wo_header_width o2 ->
+  wo_version o1 = wo_version o2 -> wo_wrap o1 = wo_wrap o2 -> col_fmt o1 0%nat = col_fmt o2 0%nat ->
+  wo_header_width o1 = wo_header_width o2 ->
   write fmtv fmt_diff fmt_pi fstr fzero numeq o1 m = WOk t1 m1 ->
   write fmtv fmt_diff fmt_pi fstr fzero numeq o2 m = WOk t2 m2 ->
   exists h d1 d2, t1 = h ++ [ch_nl] ++ d1 /\ t2 = h ++ [ch_nl] ++ d2.
 Proof.
-  intros Hv Hw Hh H1 H2.
-  destruct (header_independent_of_data_options o1 o2 m t1 m1 t2 m2 Hv Hw H1 H2) as (hs & d1 & d2 & _ & E1 & E2).
+  intros Hv Hw Hf Hh H1 H2.
+  destruct (header_independent_of_data_options o1 o2 m t1 m1 t2 m2 Hv Hw Hf H1 H2) as (hs & d1 & d2 & _ & E1 & E2).
   rewrite <- Hh in E2. eexists _, d1, d2. split; eassumption.
 Qed.
 End WithOracles.
